@@ -14,7 +14,7 @@ sys.path.insert(0, HERE)
 import extract  # noqa: E402
 from rslex import tokenize, significant, match_close  # noqa: E402
 
-BUILD = os.path.join(VERIF, "build")
+BUILD = os.environ.get("VERIF_BUILD", os.path.join(VERIF, "build"))
 REPO = os.environ.get("VERIF_REPO", "/repo")
 
 # messages that mean "an obligation was refuted / not proved" (as opposed to tool trouble)
